@@ -166,6 +166,8 @@ package ast
 //@ func (*ToBoltListener).peekStack
 //@   props C10
 //@   pure
+//@   ensures[top-or-nothing] bl.err == nil && len(bl.currentStack.values) > 0 ==> result == bl.currentStack.values[len(bl.currentStack.values)-1]
+//@   ensures[nothing-on-an-empty-stack-or-after-an-error] bl.err != nil || len(bl.currentStack.values) == 0 ==> result == nil
 //@ func (*ToBoltListener).popNode
 //@   props C10
 //@   modifies bl.currentStack.values, bl.err
@@ -179,6 +181,7 @@ package ast
 //@   modifies bl.currentStack.values, bl.err
 //@   ensures[latch] old(bl.err) != nil ==> bl.err != nil
 //@   ensures[usable] bl.err == nil ==> result != nil && ref(result) != 0
+//@   ensures[same-stack] bl.currentStack == old(bl.currentStack)
 //@ func (*ToBoltListener).popBinaryOperand
 //@   props C10
 //@   modifies bl.currentStack.values, bl.err
@@ -420,10 +423,16 @@ package ast
 // a STRING token becomes a string constant whose value is what the literal denotes (C11: the same statement as
 // ParseZqlString's, carried through the call site)
 //@ func (*ToBoltListener).VisitTerminal
-//@   props C10 C11
+//@   props C10 C11 C02
 //@   assume node != nil
 //@   modifies *
 //@   ensures[string-literal-denotes] old(bl.err) == nil && bl.err == nil && tokType(tnSym(node)) == zitiql.ZitiQlLexerSTRING ==> bl.currentStack == old(bl.currentStack) && len(bl.currentStack.values) == old(len(bl.currentStack.values)) + 1 && istype(bl.currentStack.values[old(len(bl.currentStack.values))], *StringConstNode) && forallStr(s, unquote2(unquote1(tnText(node))) == escFrom(s, 0) ==> as(bl.currentStack.values[old(len(bl.currentStack.values))], *StringConstNode).value == s, escFrom(s, 0))
+//@   ensures[sort-direction-tokens-push-their-direction] old(bl.err) == nil && bl.err == nil && (tokType(tnSym(node)) == zitiql.ZitiQlLexerASC || tokType(tnSym(node)) == zitiql.ZitiQlLexerDESC) ==> bl.currentStack == old(bl.currentStack) && len(bl.currentStack.values) == old(len(bl.currentStack.values)) + 1 && istype(bl.currentStack.values[old(len(bl.currentStack.values))], SortDirection) && as(bl.currentStack.values[old(len(bl.currentStack.values))], SortDirection) == (tokType(tnSym(node)) == zitiql.ZitiQlLexerASC)
+// a sort field takes the direction on top of the stack, ascending when there is none, and the symbol below it
+//@ func (*ToBoltListener).ExitSortFieldExpr
+//@   props C10 C02
+//@   modifies *
+//@   ensures[direction-given-or-ascending] old(bl.err) == nil && bl.err == nil && len(bl.currentStack.values) >= 1 && istype(bl.currentStack.values[len(bl.currentStack.values) - 1], *SortFieldNode) ==> as(bl.currentStack.values[len(bl.currentStack.values) - 1], *SortFieldNode).isAscending == ite(old(len(bl.currentStack.values)) >= 1 && old(istype(bl.currentStack.values[len(bl.currentStack.values) - 1], SortDirection)), old(as(bl.currentStack.values[len(bl.currentStack.values) - 1], SortDirection)), true)
 //@ func (*ToBoltListener).ExitStringArray
 //@   props C10
 //@   assume forall(i, 0 <= i && i < len(bl.currentStack.values) ==> istype(bl.currentStack.values[i], StringNode))
